@@ -523,7 +523,7 @@ def rule_refs_name_derivable_items(ck, F, X):
         return
     CEM = og.CallExpander(F, general_matches=True)
     lookups = {p_ for p_, _n, _s in A_.component_lookups(F)}
-    CEM.keep = set(lookups)
+    CEM.keep |= set(lookups)
     node = {"rust_type": ("variant", "model::structures::RustType::Element",
                           ({"xml_name": "note", "comment": None,
                             "element_type": ("variant", "model::structures::element::ElementType::RustType", (("variant", "model::field::RustFieldType::String"),))},)),
@@ -532,7 +532,7 @@ def rule_refs_name_derivable_items(ck, F, X):
     for (fn, site, ctx, fields, base) in og.field_summaries(F, "model::field::Field"):
         if "try_from_node" not in fn or "rust_type" not in fields:
             continue
-        if not any(c[0] == "alt" and c[2] and "'ref'" in og.nf_str(c[1]) for c in ctx):
+        if not og.ctx_says_present(ctx, "'ref'"):
             continue
         v = CEM.expand(fields["rust_type"])
         calls = [c for c in og.nf_calls(v) if c[1] in lookups] + [c for x in ctx if x[0] == "alt" for c in og.nf_calls(CEM.expand(x[1])) if c[1] in lookups]
